@@ -122,6 +122,11 @@ class WrappedDispatcher:
                 keep = read_callback()
             return keep
 
+        if getattr(sock, "pending", None) and sock.pending():
+            # frames that arrived in the same TLS record as the handshake response
+            if not read_all():
+                return
+
         self.dispatcher.read(sock, read_all)
         self.ping_timeout and self.timeout(self.ping_timeout, check_callback)
 
